@@ -157,11 +157,7 @@ func c18GenChain(h *H) *c18Case {
 			leaf.Parts = [][]byte{[]byte("leaf")}
 		}
 	}
-	node := leaf
-	for i := depth - 1; i >= 0; i-- {
-		node = &vNode{Name: comps[i], Type: data.NodeTypeDir, Mode: 0750, Children: []*vNode{node}}
-	}
-	c.tree = []*vNode{node}
+	node := &vNode{}
 	k := 1 + h.Intn(depth+1) // position of the symlink: an ancestor or the leaf itself
 	all := append(append([]string{}, comps...), leafName)
 	p := c18Pre{path: filepath.Join(append([]string{"target"}, all[:k]...)...), kind: "symlink"}
@@ -172,14 +168,41 @@ func c18GenChain(h *H) *c18Case {
 	}
 	c.pre = []c18Pre{p}
 	c.lbl("pre-symlink-to-outside-dir")
-	if h.Intn(4) > 0 {
+	stale := false
+	switch h.Intn(6) {
+	case 0:
+		c.filter = "none"
+	case 1, 2:
+		// select only a stale entry (a name that exists in the outside directory) of one of the
+		// directories on the path: nothing is restored, the directories are traversed, and with
+		// --delete the skippedDir callback has to clean up there (but never through a symlink)
+		j := h.Intn(depth + 1)
+		staleName := h.Pick([]string{"x", "c", "secret", "sub", "emptydir"})
+		if depth >= 2 && k < depth && strings.HasSuffix(p.target, "outside") && h.Bool() {
+			// aligned with the sandbox: the symlink at position k points to outside, the next
+			// component is "b" (outside/b exists and contains "x"), and outside/b/x is selected
+			comps[k] = "b"
+			all = append(append([]string{}, comps...), leafName)
+			j = k + 1
+			staleName = "x"
+			c.lbl("chain-stale-behind-symlink")
+		}
+		c.filter = "include"
+		c.pats = []string{"/" + strings.Join(append(append([]string{}, all[:j]...), staleName), "/")}
+		c.lbl("filter-include")
+		c.lbl("chain-stale-entry-selected")
+		stale = true
+	default:
 		c.filter = "include"
 		c.pats = []string{"/" + strings.Join(all, "/")}
 		c.lbl("filter-include")
-	} else {
-		c.filter = "none"
 	}
-	c.del = h.Intn(3) == 0
+	node = leaf
+	for i := depth - 1; i >= 0; i-- {
+		node = &vNode{Name: comps[i], Type: data.NodeTypeDir, Mode: 0750, Children: []*vNode{node}}
+	}
+	c.tree = []*vNode{node}
+	c.del = stale || h.Intn(3) == 0
 	if c.del {
 		c.lbl("delete")
 	}
